@@ -110,6 +110,12 @@ package beacon
 //@ define up_chain(f int, sl int, a int, b int, c int, d int, e int) int = up_step(up_step(up_step(up_step(up_step(f, 0, sl, a), 1, sl, b), 2, sl, c), 3, sl, d), 4, sl, e)
 //@ define fork_slot(epoch int, spe int) int = (epoch * spe) % 18446744073709551616
 
+//@ func (s *StandardUpgradeableBeaconState) UnwrapBeaconState() r
+//@   property C08
+//@   opt noalloc
+//@   requires s != nil
+//@   ensures r == s.BeaconState
+
 // BEGIN C18 generated (tools/gen_c18.py in /verif)
 // cancelled: a context cancelled before the call makes it fail; surfaced: a cancellation observed by a poll
 // during the call makes it fail; polled: success after a poll means the context was not cancelled at entry.
